@@ -357,6 +357,9 @@ func ExtractMsg(m util.Message) (*wire.N, error) {
 	kind := wire.MsgCodes.ByCode[uint64(hd.Type)]
 	n := wire.New(kind)
 	n.Set("Xid", uint64(hd.Xid))
+	if hd.Version != 4 {
+		n.Set("Version", uint64(hd.Version))
+	}
 	wrong := func() (*wire.N, error) {
 		return nil, fmt.Errorf("header type %d (%s) was parsed into a %T", hd.Type, kind, m)
 	}
